@@ -286,7 +286,7 @@ func runHeader(data []byte, chunks []int, de bool) (cls int, pid, rest []byte) {
 func c07(c *hx.Ctx) {
 	c.Type = "c07_case"
 	c.Agree = "c07_agree"
-	c.Rule = "stream-establish headers: marshalled valid protocol IDs (ASCII/multi-byte UTF-8, 1..260 bytes, two cases at the size limit) + payload under 1-byte / all-at-once / random chunkings, a quarter of them with the last bytes delivered together with io.EOF; malformed stream: zero and oversized length prefixes, truncations, declared lengths 1 and 2, padded (non-minimal) varint prefixes, wrong wire types, bad inner lengths, groups, unknown fields, non-minimal varints, invalid UTF-8, short headers, random bytes; end-to-end HandleIncomingStream with a fake link and a recording HandleMountedStream handler; non-trivial = distinct accepted header or distinct rejected malformed header"
+	c.Rule = "stream-establish headers: marshalled valid protocol IDs (ASCII/multi-byte UTF-8, 1..260 bytes, two cases at the size limit) + payload under 1-byte / all-at-once / random chunkings, a quarter of them with the last bytes delivered together with io.EOF; malformed stream: zero and oversized length prefixes, truncations, declared lengths 1 and 2, padded (non-minimal) varint prefixes, wrong wire types, bad inner lengths, groups, unknown fields, non-minimal varints, invalid UTF-8, short headers, random bytes; end-to-end HandleIncomingStream with a fake link and a recording HandleMountedStream handler controller, one stream at a time and 2..4 streams on the same bus back to back / overlapping that differ in one of protocol ID, local peer, remote peer; IsEquivalent of the directive on pairs differing in one field; non-trivial = distinct accepted header or distinct rejected malformed header"
 	// marshal
 	for i := 0; i < c.N/10; i++ {
 		pid := validPid(c, c.Rng.Intn(30))
@@ -419,8 +419,9 @@ func (l *fakeLink) GetLocalPeer() peer.ID  { return l.local }
 func (l *fakeLink) Close() error           { return nil }
 
 type dispatchRec struct {
-	pid, local, remote string // as carried by the directive
-	msPid, msPeer      string // as carried by the mounted stream
+	strm               stream.Stream // identity of the stream handed to the handler
+	pid, local, remote string        // as carried by the directive
+	msPid, msPeer      string        // as carried by the mounted stream
 	lnkLocal, lnkRem   string
 	rest               []byte
 }
@@ -428,6 +429,10 @@ type dispatchRec struct {
 type recorder struct {
 	mu   sync.Mutex
 	recs []dispatchRec
+	// hold: while non-nil, a handler that receives a stream blocks on it
+	// (keeps the lookup directive referenced) after signalling entered
+	hold    chan struct{}
+	entered chan struct{}
 }
 
 type recHandler struct {
@@ -438,7 +443,19 @@ type recHandler struct {
 func (h *recHandler) HandleMountedStream(ctx context.Context, ms link.MountedStream) error {
 	rest, _ := io.ReadAll(ms.GetStream())
 	h.r.mu.Lock()
+	hold, entered := h.r.hold, h.r.entered
+	h.r.hold, h.r.entered = nil, nil // only the first stream of an overlapping pair waits
+	h.r.mu.Unlock()
+	if hold != nil {
+		close(entered)
+		select {
+		case <-hold:
+		case <-time.After(3 * time.Second):
+		}
+	}
+	h.r.mu.Lock()
 	h.r.recs = append(h.r.recs, dispatchRec{
+		strm:     ms.GetStream(),
 		pid:      string(h.dir.HandleMountedStreamProtocolID()),
 		local:    string(h.dir.HandleMountedStreamLocalPeerID()),
 		remote:   string(h.dir.HandleMountedStreamRemotePeerID()),
@@ -465,6 +482,210 @@ func (rc *recController) HandleDirective(ctx context.Context, di directive.Insta
 		return directive.R(directive.NewValueResolver([]link.MountedStreamHandler{h}), nil)
 	}
 	return nil, nil
+}
+
+// c07equiv ties triple_eqb to HandleMountedStream.IsEquivalent: directives
+// differing in any one field are not equivalent, equal ones are.
+func c07equiv(c *hx.Ctx) {
+	vals := [][]byte{[]byte("a"), []byte("b"), []byte("ab"), []byte("a/b"), []byte("A")}
+	pick := func() []byte { return vals[c.Rng.Intn(len(vals))] }
+	for i := 0; i < 24; i++ {
+		t1 := [3][]byte{pick(), pick(), pick()}
+		t2 := t1
+		switch c.Rng.Intn(5) {
+		case 0: // equal
+		case 1, 2, 3:
+			f := c.Rng.Intn(3)
+			for bytes.Equal(t2[f], t1[f]) {
+				t2[f] = pick()
+			}
+		default:
+			t2 = [3][]byte{pick(), pick(), pick()}
+		}
+		d1 := link.NewHandleMountedStream(protocol.ID(t1[0]), peer.ID(t1[1]), peer.ID(t1[2]))
+		d2 := link.NewHandleMountedStream(protocol.ID(t2[0]), peer.ID(t2[1]), peer.ID(t2[2]))
+		type equiv interface {
+			IsEquivalent(directive.Directive) bool
+		}
+		eq, eq2 := d1.(equiv).IsEquivalent(d2), d2.(equiv).IsEquivalent(d1)
+		same := bytes.Equal(t1[0], t2[0]) && bytes.Equal(t1[1], t2[1]) && bytes.Equal(t1[2], t2[2])
+		desc := map[string]any{"kind": "directive-equivalence", "a": []string{string(t1[0]), string(t1[1]), string(t1[2])}, "b": []string{string(t2[0]), string(t2[1]), string(t2[2])}, "equivalent": eq}
+		c.Case(hx.App("Eqv", hx.Bytes(t1[0]), hx.Bytes(t1[1]), hx.Bytes(t1[2]), hx.Bytes(t2[0]), hx.Bytes(t2[1]), hx.Bytes(t2[2]), hx.Bool(eq)), desc)
+		c.Class("directive-equivalence")
+		if eq != same || eq2 != same {
+			c.Failf("directive-equivalence-wrong", desc, "HandleMountedStream(%q,%q,%q).IsEquivalent(HandleMountedStream(%q,%q,%q)) = %v / %v, the triples are equal: %v (lookups for different streams would be merged on the bus)", t1[0], t1[1], t1[2], t2[0], t2[1], t2[2], eq, eq2, same)
+		}
+	}
+}
+
+type multiStream struct {
+	in            hdrInput
+	local, remote string
+	chunks        []int
+	de            bool
+	strm          *fakeStream
+}
+
+// c07multi: several streams on the SAME bus within the dispose delay of the
+// lookup directives (back to back, or the second while the handler of the
+// first is still running): same protocol ID / local peer / remote peer except
+// for one field. Every accepted stream must be served by a lookup that carried
+// exactly its own protocol ID and its own link's peers.
+func c07multi(c *hx.Ctx, ctx context.Context, ctrl *tptc.Controller, rec *recorder, round int) {
+	mk := func(pid []byte) []byte {
+		return tptc.VerifMarshalStreamEstablishHeader(tptc.NewStreamEstablish(protocol.ID(pid)))
+	}
+	tag := fmt.Sprintf("%d", round%7) // a few rounds share triples with earlier rounds (live or just disposed lookups)
+	pids := []string{"multi/a" + tag, "multi/b" + tag}
+	locals := []string{"local-1", "local-2"}
+	remotes := []string{"remote-B", "remote-C", "remote-D"}
+	base := [3]int{c.Rng.Intn(2), c.Rng.Intn(2), c.Rng.Intn(3)}
+	n := 2 + c.Rng.Intn(3)
+	var ss []*multiStream
+	for k := 0; k < n; k++ {
+		t := base
+		if k > 0 {
+			switch c.Rng.Intn(6) {
+			case 0, 1, 2: // the interesting one: other remote peer, same protocol and local peer
+				t[2] = (base[2] + 1 + c.Rng.Intn(2)) % 3
+			case 3:
+				t[1] = 1 - base[1]
+			case 4:
+				t[0] = 1 - base[0]
+			default: // identical triple: may legitimately share the lookup
+			}
+		}
+		var in hdrInput
+		if c.Rng.Intn(6) == 0 {
+			in = genHeader(c, k)
+			in.mustAccept, in.pid = false, nil // only the generic oracle for these
+		} else {
+			payload := c.RandBytes(c.Rng.Intn(6))
+			in = hdrInput{data: append(mk([]byte(pids[t[0]])), payload...), kind: "valid", mustAccept: true, pid: []byte(pids[t[0]]), payload: payload}
+		}
+		chunks, _ := chunksFor(c, len(in.data))
+		m := &multiStream{in: in, local: locals[t[1]], remote: remotes[t[2]], chunks: chunks, de: c.Rng.Intn(4) == 0}
+		m.strm = &fakeStream{chunkReader: newChunkReader(in.data, chunks)}
+		m.strm.eofData = m.de
+		ss = append(ss, m)
+	}
+	overlap := c.Rng.Intn(2) == 0
+	rec.mu.Lock()
+	before := len(rec.recs)
+	var hold, entered chan struct{}
+	if overlap {
+		hold, entered = make(chan struct{}), make(chan struct{})
+		rec.hold, rec.entered = hold, entered
+	}
+	rec.mu.Unlock()
+	run := func(m *multiStream) bool {
+		p, _ := hx.Catch(func() {
+			ctrl.HandleIncomingStream(ctx, nil, &fakeLink{local: peer.ID(m.local), remote: peer.ID(m.remote)}, m.strm, stream.OpenOpts{})
+		})
+		return p
+	}
+	panicked := false
+	if overlap {
+		// the first stream that reaches a handler stays there (its lookup referenced) while the others are handled
+		done := make(chan bool, 1)
+		go func() { done <- run(ss[0]) }()
+		select {
+		case <-entered:
+		case p := <-done: // rejected: never reached a handler
+			panicked = panicked || p
+			done <- false
+			rec.mu.Lock()
+			rec.hold, rec.entered = nil, nil
+			rec.mu.Unlock()
+		case <-time.After(3 * time.Second):
+		}
+		for _, m := range ss[1:] {
+			panicked = run(m) || panicked
+		}
+		rec.mu.Lock()
+		rec.hold, rec.entered = nil, nil
+		rec.mu.Unlock()
+		close(hold)
+		select {
+		case p := <-done:
+			panicked = panicked || p
+		case <-time.After(5 * time.Second):
+		}
+	} else {
+		for _, m := range ss {
+			panicked = run(m) || panicked
+		}
+	}
+	rec.mu.Lock()
+	got := append([]dispatchRec{}, rec.recs[before:]...)
+	rec.mu.Unlock()
+	mode := map[bool]string{false: "back-to-back", true: "overlapping"}[overlap]
+	var evs, obs []string
+	var sdesc []map[string]any
+	desc := map[string]any{"kind": "dispatch-many/" + mode}
+	for _, m := range ss {
+		evs = append(evs, hx.App("Arrive", hx.Bool(m.de), hx.Str(m.local), hx.Str(m.remote), "("+natList(m.chunks)+", "+hx.Bytes(m.in.data)+")"))
+		var d *dispatchRec
+		cnt := 0
+		for k := range got {
+			if got[k].strm == stream.Stream(m.strm) {
+				d = &got[k]
+				cnt++
+			}
+		}
+		one := map[string]any{"local": m.local, "remote": m.remote, "data": hx.Hex(m.in.data), "chunks": m.chunks, "eof_with_last_read": m.de, "dispatched": cnt}
+		if d == nil {
+			obs = append(obs, "(Rejected 0%nat)")
+		} else {
+			tr := func(p, l, r string) string { return "(" + hx.Str(p) + ", " + hx.Str(l) + ", " + hx.Str(r) + ")" }
+			obs = append(obs, hx.App("Served", tr(d.msPid, d.lnkLocal, d.msPeer), tr(d.pid, d.local, d.remote), hx.Bytes(d.rest)))
+			one["served_by_lookup"] = []string{d.pid, d.local, d.remote}
+			one["stream_triple"] = []string{d.msPid, d.lnkLocal, d.msPeer}
+		}
+		sdesc = append(sdesc, one)
+	}
+	desc["streams"] = sdesc
+	c.Case(hx.App("Multi", hx.List(evs), hx.List(obs)), desc)
+	c.Class("dispatch-many/" + mode)
+	c.Nontrivial(fmt.Sprint("multi", round, evs))
+	if panicked {
+		c.Failf("dispatch-panic", desc, "HandleIncomingStream panicked")
+	}
+	// oracle, from the property text
+	for k, m := range ss {
+		var d *dispatchRec
+		cnt := 0
+		for j := range got {
+			if got[j].strm == stream.Stream(m.strm) {
+				d = &got[j]
+				cnt++
+			}
+		}
+		if cnt > 1 {
+			c.Failf("dispatched-twice", desc, "stream %d was handed to a handler %d times", k, cnt)
+		}
+		if m.in.mustAccept && d == nil {
+			c.Failf("valid-stream-not-dispatched", desc, "stream %d (valid header for %q on link %s<-%s) was not dispatched", k, m.in.pid, m.local, m.remote)
+		}
+		if m.in.mustReject && d != nil {
+			c.Failf("malformed-stream-dispatched/"+m.in.kind, desc, "stream %d with a %s header was dispatched as %q", k, m.in.kind, d.pid)
+		}
+		if d == nil {
+			if m.strm.closed == 0 {
+				c.Failf("rejected-stream-not-closed", desc, "stream %d was neither dispatched nor closed", k)
+			}
+			continue
+		}
+		if d.lnkLocal != m.local || d.msPeer != m.remote || d.lnkRem != m.remote || (m.in.mustAccept && d.msPid != string(m.in.pid)) {
+			c.Failf("mounted-stream-inconsistent", desc, "stream %d arrived on link (%s, %s) for %q, the mounted stream says (%s, %s) %q", k, m.local, m.remote, m.in.pid, d.lnkLocal, d.msPeer, d.msPid)
+		}
+		if d.pid != d.msPid || d.local != m.local || d.remote != m.remote {
+			c.Failf("dispatch-served-by-other-lookup", desc, "stream %d (protocol %q, local %s, remote %s) was handed to the handler of a lookup carrying (protocol %q, local %s, remote %s): the lookup for this stream was not made with its own triple (%s)", k, d.msPid, m.local, m.remote, d.pid, d.local, d.remote, mode)
+		}
+		if m.in.mustAccept && !bytes.Equal(d.rest, m.in.payload) {
+			c.Failf("dispatch-payload-not-intact", desc, "stream %d: handler read %x, payload was %x", k, d.rest, m.in.payload)
+		}
+	}
 }
 
 func c07dispatch(c *hx.Ctx) {
@@ -553,6 +774,17 @@ func c07dispatch(c *hx.Ctx) {
 					c.Failf("dispatch-payload-not-intact", desc, "handler read %x, payload was %x", d.rest, in.payload)
 				}
 			}
+		}
+	}
+	c07equiv(c)
+	rounds := c.N / 8
+	if rounds < 20 {
+		rounds = 20
+	}
+	for r := 0; r < rounds; r++ {
+		r := r
+		if p, v := hx.Catch(func() { c07multi(c, ctx, ctrl, rec, r) }); p {
+			c.Failf("scenario-panic", map[string]any{"kind": "c07/dispatch-many", "round": r, "panic": fmt.Sprint(v)}, "dispatch-many scenario %d panicked: %v", r, v)
 		}
 	}
 }
